@@ -204,7 +204,8 @@ class OfflineWorld(object):
             if eol and not out.endswith(file_eol):
                 self.fail("eol", "line %r came back as %r: not terminated by the file's line ending %r"
                           % (line, out, file_eol))
-            if eol:
+            if eol or self.eol_seen is not None:
+                # (also for an unterminated last line: what is generated from it is terminated like the file)
                 rest = out.replace(file_eol, "")
                 if "\r" in rest or "\n" in rest:
                     self.fail("eol_inner", "line %r came back as %r: an emitted line is not terminated by the file's "
